@@ -723,16 +723,9 @@ let run_net args lib =
           let c = https_p @ host @ uri in
           (match find_canon c with Some _ -> () | None -> Hashtbl.replace extra c { canon = c; https = true; host = host; uri = uri }); c in
         let name = List.map n_of_int bs in
-        let fetch v =
-          let ((rs, c'), l) = fetch_unknown w is_https resolve cap parse_ref url_parse host_of !cache v None in
-          cache := c'; log := !log @ l;
-          (match rs with FUOk _ -> "item" | FUErr _ -> "failure") in
-        let kind = (match bs with
-            | (64 | 33) :: _ ->
-              let ((rs, c'), l) = resolve_webfinger w is_https resolve cap mk_url !cache (List.tl name) in
-              cache := c'; log := !log @ l;
-              (match rs with WFLink h -> fetch (JStr h) | _ -> "failure")
-            | _ -> fetch (JStr name)) in
+        let ((rs, c'), l) = fetch_user_input w is_https resolve cap parse_ref url_parse host_of mk_url !cache name in
+        cache := c'; log := !log @ l;
+        let kind = (match rs with FUOk _ -> "item" | FUErr _ -> "failure") in
         out := !out @ [0 :: put_jv (JStr (txt kind)) @ [0]];
         cold := !cold @ [[-1]]
       | NFeed (ins, table, amounts) ->
@@ -762,14 +755,7 @@ let run_net args lib =
           let (d, k) = harvest lp (harvest_fuel q) pg q b O in
           let items = List.map (function DItem (e, pid) -> tag_any owner pid e | _ -> -1) d in
           (match k with Some (pg', b') -> ((items, Some (owner, pg')), b') | None -> ((items, None), O)) in
-        let src_page ui =
-          (match fetch_unknown w is_https resolve cap parse_ref url_parse host_of [] (JStr nc.universe.(ui)) None with
-           | ((FUOk (o, id), _), _) when kind_in actor_kinds o ->
-             (match get_any o (txt "outbox") with
-              | Present v -> (match lp (v, id) with Some pg -> Some (Some id, pg) | None -> None)
-              | _ -> None)
-           | ((FUOk (o, id), _), _) -> (match coll_page o id with Some pg -> Some (None, pg) | None -> None)
-           | _ -> None) in
+        let src_page ui = source_page w is_https resolve cap parse_ref url_parse host_of (JStr nc.universe.(ui)) in
         let sp0 = List.map (fun ui -> { s_buf = []; s_page = src_page ui; s_base = O }) ins in
         let rec go sp start amounts = (match amounts, sp with
             | [], _ | _, None -> []
